@@ -54,7 +54,7 @@ let judge _name ins outs =
   let vtoks = List.filter (fun t -> not (is_flag t)) rest in
   if List.mem "ENVFAIL" trtoks || List.mem "ENVFAIL" flags then VDisagree "environment-failure(listen/dial)"
   else if List.mem "PANIC" flags then VPropfail ("no_panic", "harness recovered a panic")
-  else if List.mem "DEADLOCK" flags then VPropfail ("close_returns", "Close did not return within 15s after every parked exchange was released: " ^ String.concat "_" trtoks)
+  else if List.mem "DEADLOCK" flags then VPropfail ("close_returns", "Close did not return within 8s after every parked exchange was released: " ^ String.concat "_" trtoks)
   else if List.mem "UNACCEPTED_SERVED" flags then VPropfail ("late_accept_not_served", "a client whose connection was never accepted received a response")
   else if List.exists (fun f -> f = "WARMUPFAIL" || f = "NOPARK" || f = "BADCASE") flags then
     VDisagree ("harness-could-not-drive-scenario:" ^ String.concat "," flags)
